@@ -192,6 +192,14 @@ ROUTES = ["direct", "direct", "ScaleTo", "ScaleTo-bare", "scale_to", "GroupScale
 
 def cases(tier, seed):
     n = NCASES[tier]
+    for j, (edges, ncell) in enumerate([([0, 1, 2, 3], 3), ([[0, 1, 2], [0, 5, 6]], 4),
+                                        ([0, 10], 1)]):
+        for w in (1, 2, -1, 0.5):
+            for explicit in (True, False):
+                rng = gen.rng_for(seed, "C12", "objects", j, w, explicit)
+                yield {"k": "add_objects", "edges": edges, "w": w, "explicit": explicit,
+                       "a": [rng.randint(-5, 9) for _ in range(ncell)],
+                       "b": [rng.randint(-5, 9) for _ in range(ncell)]}
     for i in range(n):
         rng = gen.rng_for(seed, "C12", i)
         k = rng.choice(["hscale", "hscale", "hscale", "gscale", "gscale", "gscale", "add", "add",
@@ -289,9 +297,86 @@ def run_case(r, obs):
     try:
         {"hscale": _hscale, "gscale": _gscale, "add": _add, "nevents": _nevents,
          "conv": _conv, "csv": _csv, "bad_coord": _bad_coord,
-         "reject": _reject}[r["k"]](r, obs, lena)
+         "reject": _reject, "add_objects": _add_objects}[r["k"]](r, obs, lena)
     finally:
         con.flush(obs)
+
+
+class Acc(object):
+    """A bin content that is an object (bins may hold vectors, accumulators, histograms...):
+    supports a + b, a * w and the in-place a += b, which changes the object itself."""
+
+    def __init__(self, v, log=None):
+        self.v = v
+
+    def __add__(self, other):
+        return Acc(self.v + (other.v if isinstance(other, Acc) else other))
+
+    __radd__ = __add__
+
+    def __iadd__(self, other):
+        self.v += other.v if isinstance(other, Acc) else other
+        return self
+
+    def __mul__(self, w):
+        return Acc(self.v * w)
+
+    __rmul__ = __mul__
+
+    def __eq__(self, other):
+        return isinstance(other, Acc) and self.v == other.v
+
+    def __ne__(self, other):
+        return not self == other
+
+    def __repr__(self):
+        return "Acc(%r)" % (self.v,)
+
+
+def _add_objects(r, obs, lena):
+    """histogram.add with bins that are objects: cell-wise a + w*b in a NEW histogram, the
+    operands (and the objects in their bins) unchanged."""
+    from fractions import Fraction
+    obs.nontrivial = True
+    edges = r["edges"]
+    va, vb, w = r["a"], r["b"], r["w"]
+
+    def mk(vals):
+        nested = [Acc(Fraction(v)) for v in vals]
+        if isinstance(edges[0], list):
+            n1 = len(edges[1]) - 1
+            nested = [nested[i:i + n1] for i in range(0, len(nested), n1)]
+        return lena.structures.histogram(copy_edges(edges), bins=nested)
+
+    def flat(h):
+        out = []
+        for row in h.bins:
+            out.extend(row if isinstance(row, list) else [row])
+        return out
+    a, b = mk(va), mk(vb)
+    a_objs, b_objs = flat(a), flat(b)
+    res = a.add(b, w) if w != 1 or r["explicit"] else a.add(b)
+    obs.count("contract_evals_add_objects")
+    exp = [Fraction(x) + Fraction(w) * Fraction(y) for x, y in zip(va, vb)]
+    got = [c.v for c in flat(res)]
+    obs.check(got == exp, "add-wrong-cells:object-bins",
+              "histogram.add with object bins %r + %r * %r gives %r, expected %r"
+              % (va, w, vb, got, [float(e) for e in exp]))
+    obs.check([c.v for c in a_objs] == [Fraction(v) for v in va]
+              and [c.v for c in b_objs] == [Fraction(v) for v in vb]
+              and all(x is y for x, y in zip(flat(a), a_objs)),
+              "add-modifies-operand:object-bins",
+              "after a.add(b, %r) the objects in the bins of the operands hold %r and %r, they "
+              "held %r and %r" % (w, [float(c.v) for c in a_objs], [float(c.v) for c in b_objs],
+                                  va, vb))
+    obs.check(not any(x is y for x in flat(res) for y in a_objs + b_objs),
+              "add-result-shares-bin-objects-with-operand",
+              "the result of add() holds the very bin objects of an operand")
+
+
+def copy_edges(e):
+    import copy
+    return copy.deepcopy(e)
 
 
 def _rescale(route, s, target, mate, lena, obs):
@@ -769,15 +854,27 @@ def _csv(r, obs, lena):
                 (copy_hist(h, lena), {"output": {"duplicate_last_bin": not dup}}),
                 copy_hist(h, lena)]
     effs = [not dup, dup, dup, dup, not dup, dup]
-    res2 = list(el2.run(iter(seq_vals)))
-    obs.check(len(res2) == len(seq_vals), "ToCSV-flow-shape", "ToCSV.run yielded %d values for "
-              "%d histograms" % (len(res2), len(seq_vals)))
-    for pos, (y, eff) in enumerate(zip(res2, effs)):
-        if not (isinstance(y, tuple) and len(y) == 2 and isinstance(y[0], str)):
-            obs.fail("ToCSV-value-shape", "ToCSV yielded %r" % (y,))
-            break
-        _judge_rows(obs, y[0].split("\n"), sep, _csv_expected(h, eff), eff, h,
-                    "ToCSV:value-%d-of-a-flow-with-differing-context-options" % pos)
+    import copy as _copy
+    import pickle as _pickle
+    # the element itself, a deep copy and a pickle round trip of it (MapBins, SplitIntoBins and
+    # Vectorize copy their sequences; a copied ToCSV is a ToCSV with the same options)
+    variants = [("", el2), (":deep-copied-element", _copy.deepcopy(el2))]
+    try:
+        variants.append((":unpickled-element", _pickle.loads(_pickle.dumps(el2))))
+    except Exception:  # pylint: disable=broad-except
+        obs.count("elements_not_picklable")
+    for vname, elv in variants:
+        vals = _copy.deepcopy(seq_vals)
+        res2 = list(elv.run(iter(vals)))
+        obs.check(len(res2) == len(vals), "ToCSV-flow-shape", "ToCSV.run yielded %d values "
+                  "for %d histograms" % (len(res2), len(vals)))
+        for pos, (y, eff) in enumerate(zip(res2, effs)):
+            if not (isinstance(y, tuple) and len(y) == 2 and isinstance(y[0], str)):
+                obs.fail("ToCSV-value-shape", "ToCSV yielded %r" % (y,))
+                break
+            _judge_rows(obs, y[0].split("\n"), sep, _csv_expected(h, eff), eff, h,
+                        "ToCSV:value-%d-of-a-flow-with-differing-context-options%s"
+                        % (pos, vname))
     obs.check((repr(h.edges), repr(h.bins)) == snapshot, "csv-modifies-histogram", "%r" % (h,))
     if nonzero(h) and ncell:
         obs.nontrivial = True
